@@ -3,6 +3,7 @@ CONSTANTS
   Procs = {"g1", "g2", "g3"}
   Types = {"A", "B"}
   MaxCalls = 2
+  EarlyUnlock = FALSE
   Locked = FALSE
 INVARIANTS NoLostUpdate
 CHECK_DEADLOCK FALSE
